@@ -364,4 +364,135 @@ theorem setChain_grows (child : Id) : ∀ (rest : List Seg) (h : Heap) (t : Id),
             rw [g.old a halt e, k3 a hgeA] at hx
             cases hx
 
+/-! ### Set* with a new primitive at the end of the path: nothing old is attached, nothing can close a cycle -/
+
+/-- as `Grows`, without a way out of the new nodes -/
+structure Grows0 (h h' : Heap) (t : Id) : Prop where
+  old : ∀ a, a < h.length → a ≠ t → kids h' a = kids h a
+  at_t : ∀ x, x ∈ kids h' t → x ∈ kids h t ∨ h.length ≤ x
+  new : ∀ a, h.length ≤ a → ∀ x, x ∈ kids h' a → a < x
+
+theorem reach0_from_new {h h' : Heap} {t : Id} (g : Grows0 h h' t) {a b : Id} (r : Reach h' a b) :
+    h.length ≤ a → a ≤ b ∧ h.length ≤ b := by
+  induction r with
+  | refl a => intro ha; exact ⟨Nat.le_refl _, ha⟩
+  | @step a x b hx _ ih =>
+    intro ha
+    have hlt := g.new a ha x hx
+    obtain ⟨h1, h2⟩ := ih (Nat.le_trans ha (Nat.le_of_lt hlt))
+    exact ⟨Nat.le_trans (Nat.le_of_lt hlt) h1, h2⟩
+
+/-- what reaches an old node is old and reached it before -/
+theorem reach0_to_old {h h' : Heap} {t : Id} (g : Grows0 h h' t) {u b : Id} (r : Reach h' u b) :
+    b < h.length → u < h.length ∧ Reach h u b := by
+  induction r with
+  | refl a => intro hb; exact ⟨hb, .refl a⟩
+  | @step u y b hy hr ih =>
+    intro hb
+    obtain ⟨hyo, ryb⟩ := ih hb
+    have huo : u < h.length := by
+      apply Nat.lt_of_not_le
+      intro hge
+      have := g.new u hge y hy
+      exact absurd (Nat.lt_of_le_of_lt hge this) (Nat.lt_asymm hyo)
+    refine ⟨huo, ?_⟩
+    by_cases hut : u = t
+    · subst hut
+      rcases g.at_t y hy with e | e
+      · exact .step e ryb
+      · exact absurd hyo (Nat.not_lt.mpr e)
+    · rw [g.old u huo hut] at hy
+      exact .step hy ryb
+
+theorem grows0_noCycle {h h' : Heap} {t : Id} (g : Grows0 h h' t) (nc : NoCycle h) : NoCycle h' := by
+  intro a x hx hr
+  by_cases ha : a < h.length
+  · obtain ⟨hxo, rxa⟩ := reach0_to_old g hr ha
+    by_cases hat : a = t
+    · subst hat
+      rcases g.at_t x hx with e | e
+      · exact nc a x e rxa
+      · exact absurd hxo (Nat.not_lt.mpr e)
+    · rw [g.old a ha hat] at hx
+      exact nc a x hx rxa
+  · have hge : h.length ≤ a := Nat.le_of_not_lt ha
+    have hlt := g.new a hge x hx
+    obtain ⟨h1, _⟩ := reach0_from_new g hr (Nat.le_trans hge (Nat.le_of_lt hlt))
+    exact absurd hlt (Nat.not_lt.mpr h1)
+
+theorem setChain_prim_grows0 (k v : String) : ∀ (rest : List Seg) (h : Heap) (t : Id), t < h.length → rest ≠ [] →
+    Grows0 h (setChain h t rest (.prim k v)) t := by
+  intro rest
+  induction rest with
+  | nil => intro h t _ hne; exact absurd rfl hne
+  | cons s r ih =>
+    intro h t ht _
+    have hne_t : t ≠ h.length := Nat.ne_of_lt ht
+    cases r with
+    | nil =>
+      rw [setChain_one]
+      generalize hlf : (⟨some t, s.str, .prim k v⟩ : Node) = lf
+      generalize hhA : h ++ [lf] = hA
+      have hAl : hA.length = h.length + 1 := by rw [← hhA]; simp
+      obtain ⟨k1, k2, k3⟩ := storeSeg_kids hA t s h.length (by rw [hAl]; exact Nat.lt_succ_of_lt ht)
+      have kA_old : ∀ a, a < h.length → kids hA a = kids h a := fun a ha =>
+        kids_eq_of_node_eq (by rw [← hhA]; exact List.getElem?_append_left ha)
+      have kA_new : kids hA h.length = [] := by
+        have : hA[h.length]? = some lf := by rw [← hhA]; simp
+        rw [kids_of_node this, ← hlf]; rfl
+      refine ⟨?_, ?_, ?_⟩
+      · intro a ha hne
+        rw [k1 a (by rw [hAl]; exact Nat.lt_succ_of_lt ha) hne, kA_old a ha]
+      · intro x hx
+        rcases k2 x hx with e | e | e
+        · rw [kA_old t ht] at e; exact .inl e
+        · exact .inr (by rw [hAl] at e; exact Nat.le_of_succ_le e)
+        · exact .inr (by rw [e]; exact Nat.le_refl _)
+      · intro a ha x hx
+        by_cases e : a = h.length
+        · subst e
+          rw [k1 h.length (by rw [hAl]; exact Nat.lt_succ_self _) (Ne.symm hne_t), kA_new] at hx
+          cases hx
+        · rw [k3 a (by rw [hAl]; exact Nat.succ_le_of_lt (Nat.lt_of_le_of_ne ha (Ne.symm e)))] at hx
+          cases hx
+    | cons s2 r2 =>
+      rw [setChain_cons2]
+      generalize hnw : (⟨some t, s.str, .sub [] []⟩ : Node) = nw
+      generalize hhA : h ++ [nw] = hA
+      have hAl : hA.length = h.length + 1 := by rw [← hhA]; simp
+      have htA : t < hA.length := by rw [hAl]; exact Nat.lt_succ_of_lt ht
+      obtain ⟨k1, k2, k3⟩ := storeSeg_kids hA t s h.length htA
+      have hl1' := (storeSeg_upd hA t s h.length).1
+      generalize hh1 : storeSeg hA t s h.length = h1 at *
+      have hc1 : h.length < h1.length := Nat.lt_of_lt_of_le (by rw [hAl]; exact Nat.lt_succ_self _) hl1'
+      have g := ih h1 h.length hc1 (by simp)
+      have kA_old : ∀ a, a < h.length → kids hA a = kids h a := fun a ha =>
+        kids_eq_of_node_eq (by rw [← hhA]; exact List.getElem?_append_left ha)
+      have kA_new : kids hA h.length = [] := by
+        have : hA[h.length]? = some nw := by rw [← hhA]; simp
+        rw [kids_of_node this, ← hnw]; rfl
+      refine ⟨?_, ?_, ?_⟩
+      · intro a ha hne
+        rw [g.old a (Nat.lt_trans ha hc1) (Nat.ne_of_lt ha), k1 a (by rw [hAl]; exact Nat.lt_succ_of_lt ha) hne, kA_old a ha]
+      · intro x hx
+        rw [g.old t (Nat.lt_trans ht hc1) hne_t] at hx
+        rcases k2 x hx with e | e | e
+        · rw [kA_old t ht] at e; exact .inl e
+        · exact .inr (by rw [hAl] at e; exact Nat.le_of_succ_le e)
+        · exact .inr (by rw [e]; exact Nat.le_refl _)
+      · intro a ha x hx
+        by_cases hge : h1.length ≤ a
+        · exact g.new a hge x hx
+        · have halt : a < h1.length := Nat.lt_of_not_le hge
+          by_cases e : a = h.length
+          · subst e
+            rcases g.at_t x hx with e1 | e1
+            · rw [k1 h.length (by rw [hAl]; exact Nat.lt_succ_self _) (Ne.symm hne_t), kA_new] at e1
+              cases e1
+            · exact Nat.lt_of_lt_of_le hc1 e1
+          · have hgeA : hA.length ≤ a := by
+              rw [hAl]; exact Nat.succ_le_of_lt (Nat.lt_of_le_of_ne ha (Ne.symm e))
+            rw [g.old a halt e, k3 a hgeA] at hx
+            cases hx
+
 end Ucfg.Forest
